@@ -121,6 +121,29 @@ def _key_component(v):
     return None
 
 
+def _collection_component(f, e):
+    """'0' / '1' when the expression (a name) is a collection of component 0 / 1 of the trace-dictionary keys: bound to a
+    comprehension of them, or filled by `.add(key[k])` / `.append(key[k])` in a loop over the dictionary."""
+    c = _key_component(e)
+    if c is not None:
+        return c
+    if not isinstance(e, ast.Name):
+        return None
+    found = set()
+    for a in ast.walk(f.node):
+        if isinstance(a, ast.Assign) and len(a.targets) == 1 and U(a.targets[0]) == e.id:
+            c = _key_component(a.value)
+            if c is not None:
+                found.add(c)
+        if isinstance(a, ast.For) and 'traces_ref' in U(a.iter) and isinstance(a.target, ast.Name):
+            for x in ast.walk(a):
+                if isinstance(x, ast.Call) and isinstance(x.func, ast.Attribute) and x.func.attr in ('add', 'append') and \
+                        U(x.func.value) == e.id and len(x.args) == 1 and isinstance(x.args[0], ast.Subscript) and \
+                        U(x.args[0].value) == a.target.id and isinstance(x.args[0].slice, ast.Constant) and x.args[0].slice.value in (0, 1):
+                    found.add(str(x.args[0].slice.value))
+    return found.pop() if len(found) == 1 else None
+
+
 def key_order(ctx):
     P, G = ctx.P, ctx.G
     # dictionary key built from the headers
@@ -153,6 +176,12 @@ def key_order(ctx):
                 'get_range' in U(a.value.func):
             tg = {axis_of_text(U(t)) for t in a.targets[0].elts}
             src = axis_of_text(U(a.value.args[0])) if a.value.args else None
+            # the id collection is what it was built from: component 0 / 1 of the keys, whatever it is called
+            comp_src = _collection_component(geo, a.value.args[0]) if a.value.args else None
+            if comp_src is not None:
+                src = {'0': 'IL', '1': 'XL'}[comp_src]
+            elif src is None:
+                raise AnalysisError('InferredGeometry3d.__init__: cannot tell which key component `%s` collects' % U(a.value.args[0]))
             if tg == {src} and src in ('IL', 'XL'):
                 ctx.ok('C08.2', geo, a, '%s range from %s ids' % (src, src))
             else:
@@ -180,7 +209,7 @@ def key_order(ctx):
                 ctx.ok('C08.2', geo, c, 'ranges are handed to Geometry3d axis by axis')
     # the lookup tuple in the filler, the inline number, the header store position - on polynomials
     irregular_filler(ctx)
-    ctx.floor('C08.2', 6)
+    ctx.floor('C08.2', 5)
     ctx.floor('C08.4', 2)
 
 
